@@ -562,6 +562,22 @@ theorem RInvP.visitStarts {P : Id → Prop} (ss : List Id) {r r' : Root} {buf bu
       obtain ⟨i3, g3⟩ := ih i2 hx
       exact ⟨i3, (g1.trans g2).trans g3⟩
 
+/-- `resetMarks`: between the two loops of `propagate_node_updates` -/
+theorem RInvP.resetMarks {P : Id → Prop} (ss : List Id) {r : Root} (h : RInvP P r) :
+    RInvP P (resetMarks r ss) ∧ Grows r (resetMarks r ss) := by
+  induction ss generalizing r with
+  | nil => exact ⟨h, Grows.refl _⟩
+  | cons s ss ih =>
+    simp only [Reactive.resetMarks]
+    split
+    · exact ih h
+    · rename_i n hn
+      have w := h.node s n hn
+      have i1 := h.setNode (n' := { n with mark := .none }) hn rfl rfl rfl rfl ⟨w.run, w.cleanups, w.callback⟩
+      have g1 : Grows r (r.setNode s { n with mark := .none }) := Grows.setNode _ hn fun x => x
+      obtain ⟨i2, g2⟩ := ih i1
+      exact ⟨i2, g1.trans g2⟩
+
 /-- `track` -/
 theorem track_nodes (r : Root) (id : Id) : (track r id).nodes = r.nodes ∧ (track r id).current = r.current := by
   unfold track; split <;> exact ⟨rfl, rfl⟩
@@ -807,8 +823,9 @@ theorem pres_nodeUpdates {f : Nat} (ih : PresAll f) (P : Id → Prop) (r : Root)
   · cases hx
   · rename_i r1 buf h1
     obtain ⟨i1, g1⟩ := hI.visitStarts l h1
-    obtain ⟨i2, g2⟩ := ih.loop P r1 buf.reverse r' i1 hx
-    exact ⟨i2, g1.trans g2⟩
+    obtain ⟨i1', g1'⟩ := i1.resetMarks l
+    obtain ⟨i2, g2⟩ := ih.loop P _ buf.reverse r' i1' hx
+    exact ⟨i2, (g1.trans g1').trans g2⟩
 
 theorem pres_updates {f : Nat} (ih : PresAll f) (P : Id → Prop) (r : Root) (s : Id) (r' : Root)
     (hI : RInvP P r) (hx : propagateUpdates (f + 1) r s = .ok r') : RootPost P r r' := by
@@ -1746,6 +1763,21 @@ theorem XInv.visitStarts {P : Id → Prop} (ss : List Id) {r r' : Root} {buf buf
       have v := (v1.trans v2).trans v3
       exact ⟨x3, v.xstep, v⟩
 
+theorem XInv.resetMarks (ss : List Id) {r : Root} (h : XInv r) :
+    XInv (resetMarks r ss) ∧ XStep r (resetMarks r ss) ∧ SameVals r (resetMarks r ss) := by
+  induction ss generalizing r with
+  | nil => exact ⟨h, XStep.refl _, SameVals.refl _⟩
+  | cons s ss ih =>
+    simp only [Reactive.resetMarks]
+    split
+    · exact ih h
+    · rename_i n hn
+      obtain ⟨x1, _, v1⟩ := h.setNode (n' := { n with mark := .none }) hn rfl
+        (fun x => ⟨x.a, x.b, x.c⟩)
+      obtain ⟨x2, _, v2⟩ := ih x1
+      have v := v1.trans v2
+      exact ⟨x2, v.xstep, v⟩
+
 /-! ### what the search pushes -/
 
 theorem IsDep.bwd {r r' : Root} {i : Id} (h : ∀ j, SameButMark (r'.get? j) (r.get? j)) (hd : IsDep r' i) :
@@ -2107,9 +2139,13 @@ theorem safe_nodeUpdates {f : Nat} (ih : SafeAll f) (P : Id → Prop) (r : Root)
         intro n1 hn1
         obtain ⟨n, hn, e⟩ := v1.back x n1 hn1
         rw [e]; exact (b n hn).2
-    refine (ih.loop P r1 buf.reverse i1 x1 (v1.batching.trans hb) hl1).mono ?_
+    obtain ⟨i1', g1'⟩ := i1.resetMarks l
+    obtain ⟨x1', s1', v1'⟩ := x1.resetMarks l
+    refine (ih.loop P _ buf.reverse i1' x1' (v1'.batching.trans (v1.batching.trans hb))
+      (hl1.step g1' s1')).mono ?_
     intro r' hr' h2
-    exact XPost.trans ⟨x1, s1⟩ g1 ((presAll f).loop P r1 buf.reverse r' i1 hr').2 h2
+    exact XPost.trans (XPost.trans ⟨x1, s1⟩ g1 g1' ⟨x1', s1'⟩) (g1.trans g1')
+      ((presAll f).loop P _ buf.reverse r' i1' hr').2 h2
 
 theorem safe_dchildren {f : Nat} (ih : SafeAll f) (P : Id → Prop) (r : Root) (id : Id)
     (hI : RInvP P r) (hX : XInv r) : Safe (disposeChildren (f + 1) r id) (XPost r) := by
